@@ -39,6 +39,8 @@ import experimaestro.ipc as xipc  # noqa: E402
 import experimaestro.tokens as xtok  # noqa: E402
 import experimaestro.taskglobals as xtaskglobals  # noqa: E402
 import experimaestro.commandline as xcmd  # noqa: E402
+import experimaestro.server  # noqa: E402,F401  (lazy import inside experiment.__init__: pay for it once)
+import experimaestro.launchers.direct  # noqa: E402,F401
 from experimaestro.scheduler.workspace import Workspace  # noqa: E402
 
 from .kernel import (  # noqa: E402
@@ -579,6 +581,16 @@ def install():
     xbase.Job.state = StateDesc()
     xdeps.Dependents.__init__ = dependents_init
 
+    import inspect as real_inspect
+    import experimaestro.core.objects as xobjects
+
+    # error-reporting only (_initinfo): inspect.stack() costs ~6 ms per configuration
+    xobjects.inspect = Proxy(
+        real_inspect,
+        stack=lambda: [(None,), (sys._getframe(2),)],
+        getframeinfo=lambda fr, context=1: types.SimpleNamespace(filename=fr.f_code.co_filename, lineno=fr.f_lineno),
+    )
+
     xrun.Path = SimPath
     xrun.os = Proxy(
         os,
@@ -660,6 +672,8 @@ class World:
         kernel.before_resume = self.before_resume
         kernel.after_step.append(self.fs_poll)
         kernel.after_step.append(self.cap_check)
+        kernel.after_step.append(self.marker_poll)
+        self.marker_seen = {}
         self.cap_reported = set()
         self.tok_cache = {}
         SimCFuture.kernel = kernel
@@ -823,6 +837,14 @@ class World:
     def fs_poll(self, k=None):
         for o in self.observers:
             o.diff()
+
+    # --- success markers: log the step at which each becomes visible
+    def marker_poll(self, k=None):
+        for x in self.jobdir:
+            ex = self.marker_exists(x, "done")
+            if ex != self.marker_seen.get(x, False):
+                self.marker_seen[x] = ex
+                self.k.log("marker-written" if ex else "marker-removed", x=x)
 
     # --- token capacity invariant (C08), evaluated after every kernel step
     def cap_check(self, k=None):
